@@ -104,6 +104,11 @@ def run(tier, replay=None):
             others = [n2 for n2 in obs if n2.startswith("address-level%s-mode%s-other" % (m.group(1), m.group(2)))]
             for n2 in others or [name]:
                 pairs.append(("address-independent|level %s, %s: output with the context at another address" % (m.group(1), ["one-shot", "streaming"][int(m.group(2))]), obs[name][1:], obs[n2][1:], {"pair": [name, n2]}))
+    if "nulllbuf-history0" in obs and "nulllbuf-history1" in obs:
+        # record = [level_buf != NULL, level_buf_size != 0, ret of the one-shot call, ret of the streaming call, low byte of total_out]; the one-shot ret is not compared
+        a, b = obs["nulllbuf-history0"][1:], obs["nulllbuf-history1"][1:]
+        pairs.append(("deflate-history-independent|level 1 without a level buffer: a streaming call on a fresh context vs after a one-shot call (which may borrow the context's own buffer) and isal_deflate_reset; the caller's level_buf fields",
+                      a[:2] + a[3:], b[:2] + b[3:], {"pair": ["nulllbuf-history0", "nulllbuf-history1"]}))
     SH = {"1": "garbage-filled context and level buffer before init", "2": "re-initialised after a one-shot call on incompressible data (stored fallback)", "3": "re-initialised after a one-shot call on compressible data",
           "4": "re-initialised after a one-shot call on small-alphabet data", "5": "after a one-shot call that overflowed its output", "6": "after a one-shot call and isal_deflate_reset", "7": "after a one-shot call and isal_deflate_init"}
     for name in sorted(obs):
